@@ -13,6 +13,9 @@ Definition runobs := (list bool * Q * Q)%type.
 
 Inductive acase :=
 | CAdev (e : eprog) (runs : list runobs)
+(* a reparameterised site with L lanes: per-lane location / scale duals, scripted noise, then the
+   deterministic continuation  sum_i w_i x_i + x_0 * x_last *)
+| CReparam (uniform : bool) (mus sigs : list D) (eps ws : list Qc) (op ot : Q)
 | CCanon (kin kout : nat)          (* 0 = symbolic zero, 1 = float0, 2 = value *)
 | CFlagA (ok : bool).
 
@@ -53,6 +56,13 @@ Definition check_acase (c : acase) : bool * bool * bool :=
         | None => false
         end in
       (agree, spec, spec)
+  | CReparam uni mus sigs eps ws op ot =>
+      let xs := map (fun t : D * D * Qc => let '(m, sg, e) := t in
+                                          if uni then reparam_uniform m sg e else reparam_normal m sg e)
+                    (combine (combine mus sigs) eps) in
+      let lin := fold_right (fun (t : Qc * D) acc => dadd (dmul (dconst (fst t)) (snd t)) acc) (dconst 0) (combine ws xs) in
+      let r := dadd lin (dmul (hd (dconst 0) xs) (last xs (dconst 0))) in
+      let ok := close op (this (fst r)) && close ot (this (snd r)) in (ok, ok, ok)
   | CCanon kin kout =>
       let t := match kin with O => TZero | S O => TFloat0 | _ => TV 1 end in
       let want := match canonicalize t with TZero => 0%nat | TFloat0 => 1%nat | TV _ => 2%nat end in
